@@ -606,7 +606,7 @@ impl<T> Buffer<T> {
     /// Dump internal state.
     #[must_use]
     pub fn verif_dump(&self) -> crate::verif::BufferDump {
-        let s = self.state.0.lock().unwrap();
+        let s = self.state.0.lock().unwrap_or_else(|e| e.into_inner());
         crate::verif::BufferDump {
             rpos: s.rpos,
             wpos: s.wpos,
